@@ -57,3 +57,12 @@ def done(ok, nontrivial_tag=None):
             return False        # a "counterexample" of the twin = a concrete witness reaching the mechanism
         return True
     return ok
+
+
+def pick(x, choices):
+    """the concrete member of `choices` equal to the (symbolic) x: forks once per choice, afterwards x is a plain
+    Python constant and can be hashed / used as a dict key without realisation"""
+    for c in choices:
+        if x == c:
+            return c
+    raise AssertionError('value outside the declared choices')
